@@ -138,6 +138,10 @@ pub fn run(ctx: &Ctx) {
     enumerate(ctx, "huge-windows", &huge[..nh], false, |c, o| dirs.with(|d| judge(d, c, o)));
     // on the wire the window bound is the *acknowledged* windowsize: downloads from the real tftpd with windows of up to
     // 65535 blocks / several MB, every burst counted by a model client with an enlarged receive buffer (shared with C09)
+    // real elapsed time: a window whose transmission takes longer than the negotiated timeout (duplicate-packets mode),
+    // followed by a stale ACK - no retransmission may follow (shared with C16's wire part)
+    let timer = vec![super::c16w::Case { n: "2".to_string(), single: false, with_options: true, scenario: 2 }];
+    enumerate(ctx, "wire-stale-ack-after-long-window", &timer, false, |c, o| dirs.with(|d| super::c16w::judge(d, c, o)));
     let grid = super::c09::big_grid();
     enumerate(ctx, "wire-window-bound", &grid, false, |c, o| dirs.with(|d| super::c09::judge(d, c, o)));
     if ctx.tier == Tier::Thorough {
@@ -146,6 +150,9 @@ pub fn run(ctx: &Ctx) {
 }
 
 pub fn replay(ctx: &Ctx, part: &str, case: &Value) -> bool {
+    if part == "wire-stale-ack-after-long-window" {
+        return super::c16w::replay(ctx, "wire-duplicate-packets", case);
+    }
     if part.starts_with("wire-") {
         return super::c09::replay(ctx, part, case);
     }
